@@ -21,6 +21,10 @@ def _work(item):
         _, cfgs, props, max_exec, max_dev = item
         outs = [e3.explore_config_e3((c, props, max_exec, max_dev)) for c in cfgs]
         return ('e3', outs)
+    if kind == 'real':
+        from . import e4
+        _, cases, props = item
+        return ('real', [e4.real_case((cfg, be, mw, props)) | {'cfg': cfg.brief(), 'backend': be, 'mw': mw} for cfg, be, mw in cases])
     if kind == 'serial':
         _, cfgs, props = item
         outs = []
@@ -57,6 +61,7 @@ def chunks(seq: list, size: int):
 
 def run_e2_property(prop: str, tier: str, seed: int, configs: Iterable, *, serial_configs: Iterable = (),
                     e3_configs: Iterable = (), e3_max_exec: Optional[int] = 20000, e3_max_dev: Optional[int] = None,
+                    real_cases: Iterable = (),
                     props: Optional[Sequence[str]] = None, max_exec_per_cfg: Optional[int] = None,
                     rule: str = '', assumptions: Sequence[str] = (), chunk: int = 40,
                     extra_cov: Optional[dict] = None) -> Result:
@@ -70,6 +75,9 @@ def run_e2_property(prop: str, tier: str, seed: int, configs: Iterable, *, seria
     e3_sorted = sorted(e3_configs, key=lambda c: (-c.spec.n, -(c.max_workers or 9)))
     items = [('e3', c, props, e3_max_exec, e3_max_dev) for c in chunks(e3_sorted, 6)] + items
     e3_exec = e3_cfgs = 0
+    real_cases = list(real_cases)
+    items = [('real', real_cases[i:i + 2], props) for i in range(0, len(real_cases), 2)] + items
+    real_runs = real_validated = real_maxc = 0
     executions = states = transitions = 0
     n_cfg = 0
     capped = 0
@@ -100,6 +108,19 @@ def run_e2_property(prop: str, tier: str, seed: int, configs: Iterable, *, seria
                     busiest = {'cfg': o['cfg'], 'executions': o['executions'], 'states': o['states']}
                 if len(samples) < 4 and o['executions'] > 1:
                     samples.append({'cfg': o['cfg'], 'schedules_explored': o['executions'], 'states': o['states']})
+        elif kind == 'real':
+            for o in outs:
+                real_runs += 1
+                real_maxc = max(real_maxc, o.get('max_conc', 0))
+                for p, key, msg in o['viols']:
+                    if p == prop:
+                        viols.append(Violation(prop=p, key=key, what=msg, replay={'engine': 'real', 'cfg': o['cfg'], 'backend': o['backend'], 'mw': o['mw']}, size=500))
+                if o.get('validated'):
+                    real_validated += 1
+                elif o.get('rejected') and not o['viols']:
+                    rejected.append((o['cfg'], f"[real {o['backend']}] {o['rejected']}"))
+                if real_runs <= 2:
+                    samples.append({'real_process_backend_trace': o.get('trace'), 'backend': o['backend'], 'max_workers': o['mw']})
         else:
             for o in outs:
                 serial_runs += 1
@@ -111,14 +132,17 @@ def run_e2_property(prop: str, tier: str, seed: int, configs: Iterable, *, seria
                 if serial_runs <= 2:
                     samples.append({'real_serial_trace': o['trace'], 'cfg': o['cfg']})
     if rejected and not viols:
-        raise HarnessError(f'{len(rejected)} real SerialRunner traces rejected by SchedRunner replay although '
+        raise HarnessError(f'{len(rejected)} real runner traces rejected by SchedRunner replay although '
                            f'all oracles are silent, e.g. {rejected[0]}')
     if busiest:
         samples.append({'largest_configuration': busiest})
     cov = {
         'states': states,
         'transitions': transitions,
-        'traces_validated_against_impl': validated,
+        'traces_validated_against_impl': validated + real_validated,
+        'real_fork_spawn_runs': real_runs,
+        'real_fork_spawn_traces_accepted_by_model': real_validated,
+        'real_max_concurrency_observed': real_maxc,
         'samples': samples,
         'evaluations': executions + serial_runs,
         'distinct_nontrivial': n_cfg,
